@@ -646,4 +646,8 @@ def bytes_to_str(b):
 
 
 def unquote_to_wsgi_str(string):
+    # the str holds one latin-1 character per request byte: do not let
+    # unquote_to_bytes() re-encode raw non-ASCII bytes as UTF-8
+    if isinstance(string, str):
+        string = string.encode('latin-1')
     return urllib.parse.unquote_to_bytes(string).decode('latin-1')
